@@ -45,6 +45,14 @@ def add_index(ip, k, loop: bool = False) -> None:
         s.loop_idx.append(k)
 
 
+def skolem(ip, hint: str, n):
+    """Witness index of a lemma instance; chosen inside [0, n) whenever that range is non-empty (else 0)."""
+    sk = sym.fresh(hint, I)
+    ip.path.assume(z3.And(sk >= 0, z3.Implies(n > 0, sk < n)))
+    add_index(ip, sk)
+    return sk
+
+
 def define_array(ip, arr, n, elem_fn, origin: str):
     s = seqs(ip)
     key = str(arr)
@@ -80,15 +88,13 @@ def saturate(ip, rounds: int = 2) -> None:
             if _once(ip, f"psum0:{arr}"):
                 p.assume(S.PSUM(arr, z3.IntVal(0)) == 0)
             if _once(ip, f"zero:{arr}:{n}"):                       # lean: psum_zero  (Finset.sum_eq_zero)
-                sk = sym.fresh("sk_zero", I)
-                add_index(ip, sk)
+                sk = skolem(ip, "sk_zero", n)
                 p.assume(z3.Or(S.PSUM(arr, n) == 0, z3.And(sk >= 0, sk < n, z3.Select(arr, sk) != 0)))
             for i in list(s.loop_idx):
                 if _once(ip, f"step:{arr}:{i}"):                   # lean: psum_succ  (Finset.sum_range_succ)
                     p.assume(S.PSUM(arr, i + 1) == S.PSUM(arr, i) + z3.Select(arr, i))
                 if origin == "spec" and _once(ip, f"single:{arr}:{n}:{i}"):   # lean: psum_single (Finset.sum_eq_single)
-                    sk = sym.fresh("sk_single", I)
-                    add_index(ip, sk)
+                    sk = skolem(ip, "sk_single", n)
                     p.assume(z3.Or(z3.Not(z3.And(i >= 0, i < n)), S.PSUM(arr, n) == z3.Select(arr, i),
                                    z3.And(sk >= 0, sk < n, sk != i, z3.Select(arr, sk) != 0)))
         for arr, n, elem, origin in arrays:
@@ -99,8 +105,7 @@ def saturate(ip, rounds: int = 2) -> None:
                 for b_ in range(a_ + 1, len(li)):
                     i, j = li[a_], li[b_]
                     if _once(ip, f"pair:{arr}:{n}:{i}:{j}"):        # lean: psum_pair (two applications of sum_eq_single)
-                        sk = sym.fresh("sk_pair", I)
-                        add_index(ip, sk)
+                        sk = skolem(ip, "sk_pair", n)
                         p.assume(z3.Or(z3.Not(z3.And(i >= 0, i < n, j >= 0, j < n, i != j)),
                                        S.PSUM(arr, n) == z3.Select(arr, i) + z3.Select(arr, j),
                                        z3.And(sk >= 0, sk < n, sk != i, sk != j, z3.Select(arr, sk) != 0)))
@@ -109,20 +114,21 @@ def saturate(ip, rounds: int = 2) -> None:
         for ca, cn, _ce, _ in code_arrays:
             for sa, sn, _se, _ in spec_arrays:
                 if _once(ip, f"ext:{ca}:{sa}"):                    # lean: psum_ext  (Finset.sum_congr)
-                    sk = sym.fresh("sk_ext", I)
-                    add_index(ip, sk)
+                    sk = skolem(ip, "sk_ext", cn)
                     p.assume(z3.Or(cn != sn, S.PSUM(ca, cn) == S.PSUM(sa, sn),
                                    z3.And(sk >= 0, sk < cn, z3.Select(ca, sk) != z3.Select(sa, sk))))
         # pointwise definitions at every index term
         for k in list(s.idx):
-            for arr, n, elem, origin in list(s.arrays.values()):
-                if _once(ip, f"at:{arr}:{k}"):
-                    try:
-                        p.assume(z3.Select(arr, k) == elem(k))
-                    except Unsupported:
-                        raise
             for pw in list(s.pointwise):
                 pw(k)
+        for k in list(s.idx):
+            for arr, n, elem, origin in list(s.arrays.values()):
+                if _once(ip, f"at:{arr}:{k}"):
+                    p.guards.append(z3.And(k >= 0, k < n))
+                    try:
+                        p.assume(z3.Select(arr, k) == elem(k))
+                    finally:
+                        p.guards.pop()
         for i in list(s.loop_idx):
             for stepper in list(s.folds):
                 stepper(i)
@@ -194,11 +200,9 @@ def register_vector(sp, v, w=None, E=None, PV=None):
             p.assume(z3.Not(OCCV(v, w, z3.IntVal(0))))
             p.assume(REGALL(v, w, E, PV, z3.IntVal(0)))
             # Skolem witnesses for the closed forms at n        lean: exists_prefix_elim / forall_prefix_intro
-            sk1 = sym.fresh("sk_occ", I)
-            add_index(ip, sk1)
+            sk1 = skolem(ip, "sk_occ", n)
             p.assume(z3.Implies(OCCV(v, w, n), z3.And(sk1 >= 0, sk1 < n, OCCE(v, sk1, w))))
-            sk2 = sym.fresh("sk_reg", I)
-            add_index(ip, sk2)
+            sk2 = skolem(ip, "sk_reg", n)
             p.assume(z3.Or(REGALL(v, w, E, PV, n), z3.And(sk2 >= 0, sk2 < n, z3.Not(REGV(v, sk2, w, E, PV)))))
 
         def stepper(i, v=v, w=w, E=E, PV=PV):
@@ -226,8 +230,7 @@ def named_forall(ip, name: str, args: list, n, pred_fn):
     if key not in s.done:
         s.done.add(key)
         p.assume(P(*args, z3.IntVal(0)))
-        sk = sym.fresh("sk_" + name, I)
-        add_index(ip, sk)
+        sk = skolem(ip, "sk_" + name, n)
         p.assume(z3.Or(P(*args, n), z3.And(sk >= 0, sk < n, z3.Not(pred_fn(sk)))))       # lean: forall_prefix_intro
 
         def pw(k):
@@ -251,8 +254,7 @@ def named_exists(ip, name: str, args: list, n, pred_fn):
     if key not in s.done:
         s.done.add(key)
         p.assume(z3.Not(P(*args, z3.IntVal(0))))
-        sk = sym.fresh("sk_" + name, I)
-        add_index(ip, sk)
+        sk = skolem(ip, "sk_" + name, n)
         p.assume(z3.Implies(P(*args, n), z3.And(sk >= 0, sk < n, pred_fn(sk))))            # lean: exists_prefix_elim
 
         def pw(k):
@@ -278,8 +280,7 @@ def named_maxfold(ip, name: str, args: list, n, val_fn, lower=0):
     if key not in s.done:
         s.done.add(key)
         p.assume(Mx(*args, z3.IntVal(0)) == lower)
-        sk = sym.fresh("sk_" + name, I)
-        add_index(ip, sk)
+        sk = skolem(ip, "sk_" + name, n)
         p.assume(z3.Or(Mx(*args, n) == lower, z3.And(sk >= 0, sk < n, Mx(*args, n) == val_fn(sk))))
         p.assume(Mx(*args, n) >= lower)
 
@@ -294,3 +295,15 @@ def named_maxfold(ip, name: str, args: list, n, val_fn, lower=0):
                 p.assume(Mx(*args, i) >= lower)
         s.folds.append(st)
     return lambda i: Mx(*args, i if not isinstance(i, int) else z3.IntVal(i))
+
+
+def index_used(ip, k) -> None:
+    """An index term is about to be used to evaluate a lazily defined element: instantiate the element facts for it."""
+    s = seqs(ip)
+    if isinstance(k, int):
+        k = z3.IntVal(k)
+    new = not any(k.eq(x) for x in s.idx)
+    add_index(ip, k)
+    for other in list(s.idx):
+        for pw in list(s.pointwise):
+            pw(other)
